@@ -251,8 +251,14 @@ def rnn_case(rnd, cls):
   log = []
   units, feat, steps = rnd.choice([2, 3]), rnd.choice([2, 3]), rnd.choice([2, 3])
   usebias = rnd.random() < 0.7
-  kw = dict(use_bias=usebias, kernel_quantizer=Proxy(KQ(), "kernel", log), recurrent_quantizer=Proxy(KQ(), "recurrent", log))
-  if usebias:
+  # any subset of the weight quantizers may be configured (including none: the layer then is the stock layer)
+  present = {r: rnd.random() < 0.7 for r in ("kernel", "recurrent", "bias")}
+  kw = dict(use_bias=usebias)
+  if present["kernel"]:
+    kw["kernel_quantizer"] = Proxy(KQ(), "kernel", log)
+  if present["recurrent"]:
+    kw["recurrent_quantizer"] = Proxy(KQ(), "recurrent", log)
+  if usebias and present["bias"]:
     kw["bias_quantizer"] = Proxy(BQ(), "bias", log)
   impl = rnd.choice([1, 2]) if cls != "QSimpleRNN" else None
   if cls == "QSimpleRNN":
@@ -275,20 +281,22 @@ def rnn_case(rnd, cls):
   del log[:]
   y = lay(tf.constant(x)).numpy()
   roles = [r for r, _, _ in log]
-  per_step = ["kernel", "recurrent"] + (["bias"] if usebias else [])
+  per_step = [r for r in ("kernel", "recurrent") if present[r]] + (["bias"] if usebias and present["bias"] else [])
   # every time step applies each weight quantizer exactly once (order inside a step is the cell's business)
   # the step function may be traced once or run per time step: every weight role is applied equally often and no
   # other role is applied
-  ok = set(roles) == set(per_step) and len({roles.count(r) for r in per_step}) == 1
+  ok = set(roles) == set(per_step) and len({roles.count(r) for r in per_step}) <= 1
   st.build((None, steps, feat))
-  qw = [np.asarray(KQ()(tf.constant(ws[0]))), np.asarray(KQ()(tf.constant(ws[1])))]
+  qw = [np.asarray(KQ()(tf.constant(ws[0]))) if present["kernel"] else ws[0],
+        np.asarray(KQ()(tf.constant(ws[1]))) if present["recurrent"] else ws[1]]
   if usebias:
-    qw.append(np.asarray(BQ()(tf.constant(ws[2]))))
+    qw.append(np.asarray(BQ()(tf.constant(ws[2]))) if present["bias"] else ws[2])
   st.set_weights(qw)
   ys = st(tf.constant(x)).numpy()
   tol = 4 * np.spacing(np.maximum(np.abs(ys), np.float32(1e-6)).astype(np.float32))
   return {"kind": "rnn", "cls": cls, "impl": impl or 0, "usebias": int(usebias), "applied_ok": int(ok),
-          "stock": int(bool(np.all(np.abs(ys - y) <= tol))), "applied": roles[:6]}
+          "stock": int(bool(np.all(np.abs(ys - y) <= tol))), "applied": roles[:6],
+          "present": "".join(r[0] for r in ("kernel", "recurrent", "bias") if present[r] and (r != "bias" or usebias))}
 
 
 def main():
